@@ -194,6 +194,9 @@ inductive MExpr (K : Type) where
   | bin (op : BinOp) (a b : MExpr K)
   | ife (branches : MBranches K)
   | call (f : String) (args : MExprs K)
+  /-- `delay(e, d)`, the `k`-th delay operator of the model: its value is the independent input
+      `_pymoca_delay_k`; the operands only feed the delay-argument function. -/
+  | delay (k : Nat) (e d : MExpr K)
 inductive MExprs (K : Type) where
   | nil
   | cons (e : MExpr K) (es : MExprs K)
@@ -202,6 +205,8 @@ inductive MBranches (K : Type) where
   | last (e : MExpr K)
   | cons (c e : MExpr K) (rest : MBranches K)
 end
+
+def delayName (k : Nat) : String := "_pymoca_delay_" ++ toString k
 
 def MExprs.toList : MExprs K → List (MExpr K)
   | .nil => []
@@ -223,6 +228,7 @@ def evalM (P : Prims K) (F : FSem K) (ρ : Env K) : MExpr K → Option (List K)
   | .bin op a b => do let x ← evalM P F ρ a; let y ← evalM P F ρ b; semBin P op x y
   | .ife bs => evalIfe P F ρ bs
   | .call f args => do let vs ← evalMs P F ρ args; let g ← F f; g vs
+  | .delay k _ _ => ρ.val (delayName k)
 def evalMs (P : Prims K) (F : FSem K) (ρ : Env K) : MExprs K → Option (List (List K))
   | .nil => some []
   | .cons e es => do let v ← evalM P F ρ e; let vs ← evalMs P F ρ es; some (v :: vs)
